@@ -37,7 +37,7 @@ func (c09Engine) Count(tier string) int {
 	if tier == "thorough" {
 		return 30000
 	}
-	return 800
+	return 1600
 }
 func (c09Engine) Rule() string {
 	return "Scenario i from H(VERIF_SEED,'C09',i): a vmsim history (as C07: 3-6 programs, 2-3 environments, 1-3 long-lived VMs, 6-60 ops with budgets, call faults and crashes, plus crash-point enumeration at every instruction) biased toward programs that read where a write would go (filter/map/slices over environment-owned and folded constant slices, membership on environment maps with absent keys, nil-safe access to absent members, constants of every kind). Around EVERY op the deep snapshots (reflection walk: unexported fields, spare slice capacity, sorted maps, floats by bits) of all programs and of the environment value must be unchanged, and the op re-run on an equal environment must give an equal result and call journal. Each source is compiled 16 times in-process (optionally with ConstExpr functions) and the canonical program dumps (bytecode, constants, locations, source) and the sample environment's snapshot must be identical; the driver re-computes the dumps of the first scenarios in 8 (thorough: 32) fresh processes at GOMAXPROCS 1/4/16 and compares digests. One evaluation = one op (with its snapshots and re-run) or one repeated compilation. Non-trivial = an op on a program that reads environment-owned or constant collections, or a compilation of a program with at least two constants; distinct = distinct (program, env, budget, fault, crash point, history digest) signatures."
